@@ -91,10 +91,10 @@ type c13Case struct {
 	// reading while this session runs (its router queue fills up); both must end and release everything
 	Companion int `json:"companion,omitempty"`
 	// Store = "busy": another writer holds the SQLite database for the whole session (see above)
-	Store string `json:"store,omitempty"`
-	StMs      int `json:"st_ms"`
-	PingMs int      `json:"ping_ms"`
-	Obs    c13Obs   `json:"obs"`
+	Store  string `json:"store,omitempty"`
+	StMs   int    `json:"st_ms"`
+	PingMs int    `json:"ping_ms"`
+	Obs    c13Obs `json:"obs"`
 }
 
 const (
@@ -543,15 +543,14 @@ func c13RunSession(c *c13Case) {
 		// the neighbours worked while this session ended; now they are cancelled and must end too
 		time.Sleep(5 * time.Millisecond)
 		churnCancel()
-		t := time.NewTimer(c13ReturnBound)
+		deadline := time.Now().Add(c13ReturnBound)
 		for _, d := range churnDone {
 			select {
 			case <-d:
-			case <-t.C:
+			case <-time.After(time.Until(deadline)):
 				c.Obs.Returned = false
 			}
 		}
-		t.Stop()
 	}
 	if c.Companion == 1 {
 		ccancel()
